@@ -255,10 +255,24 @@ Qed.
 Theorem lens_at_spec : forall p d s l,
   In l (lens_at p d s) <-> exists key, genuine p d s l key.
 Proof.
-  intros p d s l. unfold lens_at. rewrite filter_In, existsb_exists. split.
-  - intros [_ [key [_ H]]]. exists key. apply genuine_b_spec. exact H.
-  - intros [key H]. split; [eapply cand_lens_complete; exact H|].
-    exists key. split; [eapply cand_keys_complete; exact H|apply genuine_b_spec; exact H].
+  intros p d s l. destruct p as [text m|r|r m]; cbn [lens_at].
+  - rewrite filter_In, existsb_exists. split.
+    + intros [_ [key [_ H]]]. exists key. apply genuine_b_spec. exact H.
+    + intros [key H]. split; [eapply cand_lens_complete; exact H|].
+      exists key. split; [eapply cand_keys_complete; exact H|apply genuine_b_spec; exact H].
+  - rewrite in_map_iff. cbn [genuine]. split.
+    + intros [j [Hl Hj]]. apply ends_spec in Hj. pose proof (M_bounds _ _ _ _ _ Hj) as Hb.
+      exists None. split; [reflexivity|]. subst l. replace (s + (j - s)) with j by lia. exact Hj.
+    + intros [key [_ H]]. exists (s + l). split; [lia|]. apply ends_spec. exact H.
+  - rewrite dedup_In, in_flat_map. cbn [genuine]. split.
+    + intros [w [Hw H]]. apply in_map_iff in H. destruct H as [j [Hl Hj]]. apply filter_In in Hj.
+      destruct Hj as [Hj Hfw]. apply ends_spec in Hj. pose proof (M_bounds _ _ _ _ _ Hj) as Hb.
+      exists None. split; [reflexivity|]. exists w. split; [exact Hw|]. subst l.
+      replace (s + (j - s)) with j by lia. split; [exact Hj|].
+      intro F. rewrite F in Hfw. cbn [negb orb] in Hfw. apply fullword_b_spec. exact Hfw.
+    + intros [key [_ [w [Hw [H Hfw]]]]]. exists w. split; [exact Hw|].
+      apply in_map_iff. exists (s + l). split; [lia|]. apply filter_In. split; [apply ends_spec; exact H|].
+      destruct (rm_fullword m); [|reflexivity]. cbn [negb orb]. apply fullword_b_spec. apply Hfw. reflexivity.
 Qed.
 
 Theorem ref_scan_spec : forall p d s ls,
